@@ -90,7 +90,7 @@ func (p *Prog) lpath(v ssa.Value) string {
 	case *ssa.Field:
 		return p.lpath(x.X) + "." + fieldName(x)
 	case *ssa.FieldAddr:
-		return "&" + p.lpath(x.X) + "." + fieldName(x)
+		return "&" + p.basePath(x.X) + "." + fieldName(x)
 	case *ssa.ChangeType:
 		return p.lpath(x.X)
 	case *ssa.ChangeInterface:
@@ -124,11 +124,20 @@ func (p *Prog) lpath(v ssa.Value) string {
 	return "v:" + v.Name()
 }
 
+// basePath: path of the struct a FieldAddr selects from; a nested FieldAddr (struct embedded by value)
+// continues the path of the enclosing location.
+func (p *Prog) basePath(x ssa.Value) string {
+	if fa, ok := x.(*ssa.FieldAddr); ok {
+		return p.locPath(fa)
+	}
+	return p.lpath(x)
+}
+
 // locPath: path of the location an address denotes.
 func (p *Prog) locPath(addr ssa.Value) string {
 	switch a := addr.(type) {
 	case *ssa.FieldAddr:
-		return p.lpath(a.X) + "." + fieldName(a)
+		return p.basePath(a.X) + "." + fieldName(a)
 	case *ssa.Alloc:
 		n := a.Comment
 		if n == "" || n == "complit" || n == "new" {
